@@ -26,6 +26,7 @@ def configs(tier, seed):
     out.append({"name": "args", "harness": "args", "mode": "real"})
     for i, (argv, sport, want) in enumerate(WIRING):
         out.append({"name": "wiring-%d" % i, "harness": "wiring", "argv": argv, "s_port": sport, "want": want})
+        out.append({"name": "wiring-quic-%d" % i, "harness": "wiring", "argv": argv, "s_port": sport, "want": want, "quic": True})
     return out
 
 
@@ -241,9 +242,18 @@ def _wiring(cfg):
     def scenario():
         c = ctx()
         src = SC.SymSrc()
-        items, keylog, meta = SC.build(scfg, src)
         ep = P.Endpoint(ipv=4, s_port=cfg["s_port"])
-        frames = P.tcp_frames(ep, items)
+        if cfg.get("quic"):
+            from tlv.harness import c02
+            from tlv.oracle import quic_scenario as QS
+            qcfg = {"suite": 0x1301, "offered": [0x1301], "odcid_len": 8, "c_cid_len": 4, "s_cid_len": 8, "n_app": 2, "data_len": 1}
+            dgrams, keylog, meta = QS.build(qcfg, src)
+            c02.assume_cids_prefix_free(c, meta)
+            c02.assume_no_accidental_cid(c, meta, dgrams)
+            frames = [(fr, float(ts)) for fr, ts, _ in P.udp_frames(ep, dgrams)]
+        else:
+            items, keylog, meta = SC.build(scfg, src)
+            frames = P.tcp_frames(ep, items)
         env = RD.RunEnv(mods, [(ts, fr) for fr, ts, *_ in frames], files={"k.log": ""})
         mods["tlexport.keylog_reader"].get_keys_from_string = lambda text: P.keylog_objects(mods, keylog)
         try:
@@ -255,12 +265,12 @@ def _wiring(cfg):
         c.check(True, "no-exception")
         conds = []
         for fr, ts in out:
-            tcp = fr.layer("TCP")
+            tcp = fr.layer("TCP") or fr.layer("UDP")
             ip = fr.layer("IP")
             from_server = ip.src == "10.0.0.2"
             conds.append((tcp.sport if from_server else tcp.dport) == cfg["want"])
             conds.append((tcp.dport if from_server else tcp.sport) == ep.c_port)
-        c.check(len(out) >= 3 and sym_and(*conds), "wiring-ports", "argv %r" % (cfg["argv"],))
+        c.check(len(out) >= (2 if cfg.get("quic") else 3) and sym_and(*conds), "wiring-ports", "argv %r: ports %r" % (cfg["argv"], [((fr.layer("TCP") or fr.layer("UDP")).sport, (fr.layer("TCP") or fr.layer("UDP")).dport) for fr, ts in out][:3]))
         return {"outcome": "%d packets" % len(out), "validate": False}
     return explore_cfg(scenario, cfg, timeout_ms=60000, sample_paths=1)
 
@@ -305,10 +315,16 @@ def replay(cfg, viol):
         from tlv.harness import pipeline as P
         from tlv.oracle import scenario as SC
         scfg = {"version": "TLS12", "suite": 0x009c, "suite_name": "TLS_RSA_WITH_AES_128_GCM_SHA256", "records": 2, "max_len": 1, "grouping": "one"}
-        items, keylog, meta = SC.build(scfg, SC.ConcreteSrc(inp))
         ep = P.Endpoint(ipv=4, s_port=cfg["s_port"])
-        r = e2e.run_tlexport(e2e.concrete_frames(ep, items), e2e.keylog_text(keylog), args=cfg["argv"])
-        ports = {(d["sport"], d["dport"]) for d in r["frames"] if d.get("l4") == "tcp"}
+        if cfg.get("quic"):
+            from tlv.oracle import quic_scenario as QS
+            qcfg = {"suite": 0x1301, "offered": [0x1301], "odcid_len": 8, "c_cid_len": 4, "s_cid_len": 8, "n_app": 2, "data_len": 1}
+            dgrams, keylog, meta = QS.build(qcfg, SC.ConcreteSrc(inp))
+            r = e2e.run_tlexport(e2e.concrete_udp_frames(ep, dgrams), e2e.keylog_text(keylog), args=cfg["argv"])
+        else:
+            items, keylog, meta = SC.build(scfg, SC.ConcreteSrc(inp))
+            r = e2e.run_tlexport(e2e.concrete_frames(ep, items), e2e.keylog_text(keylog), args=cfg["argv"])
+        ports = {(d["sport"], d["dport"]) for d in r["frames"] if d.get("l4") in ("tcp", "udp")}
         ok = not r["problems"] and ports and all(set(p) == {cfg["want"], ep.c_port} for p in ports)
         return {"reproduced": not ok, "ports": sorted(ports), "problems": r["problems"][:2]}
     return {"reproduced": None}
